@@ -57,6 +57,10 @@ class FakeSock:
             item = self.plan.pop(0)
             if item == "T":
                 raise socket.timeout()
+            if item == "E":          # a non-blocking socket with nothing to read yet
+                raise BlockingIOError(11, "Resource temporarily unavailable")
+            if item == "R":          # any other socket error surfacing from recv()
+                raise ConnectionResetError(104, "Connection reset by peer")
             n = min(item, bufsize)
         data = self.stream[self.pos:self.pos + n]
         self.pos += len(data)
@@ -122,6 +126,11 @@ def exc(ex):
     return n
 
 
+# outcomes after which the caller simply tries the same call again: nothing may have been lost
+INTERRUPTED = ("Timeout", "BlockingIOError", "ConnectionResetError")
+PLANCODE = {"T": 0, "E": -1, "R": -2}
+
+
 def run_call(bs, call, to):
     from boltons import socketutils as su
     c = call["c"]
@@ -175,7 +184,7 @@ def recv_session(rng, maxlen):
     style = rng.choice(["bytewise", "random", "whole", "random"])
     while left > 0:
         if rng.random() < 0.25:
-            plan.append("T")
+            plan.append(rng.choice(["T", "T", "T", "E", "E", "R"]))
             continue
         k = 1 if style == "bytewise" else (left if style == "whole" else rng.randint(1, min(4, left)))
         plan.append(k)
@@ -202,11 +211,11 @@ def recv_session(rng, maxlen):
                 except Exception:
                     rb = [-7]
                 evs.append({"call": call, "r": r, "rbuf": rb, "pos": fs.pos})
-                if r["e"] != "Timeout":
+                if r["e"] not in INTERRUPTED:
                     break
     finally:
         Clock.restore()
-    return {"kind": "recv", "stream": stream, "recvsize": recvsize or 0, "plan": [0 if p == "T" else p for p in plan], "ev": evs,
+    return {"kind": "recv", "stream": stream, "recvsize": recvsize or 0, "plan": [PLANCODE.get(p, p) for p in plan], "ev": evs,
             "deadline_jump_at": jump or 0}
 
 
@@ -328,10 +337,10 @@ def exhaustive_sessions(maxlen):
                     comp.append(cur)
                 comps.append(comp)
             for comp in comps:
-                for tpos in [None] + list(range(len(comp) + 1)):
+                for tpos, gap in [(None, "T")] + [(t_, g_) for t_ in range(len(comp) + 1) for g_ in ("T", "E")]:
                     plan = list(comp)
                     if tpos is not None:
-                        plan.insert(tpos, "T")
+                        plan.insert(tpos, gap)
                     for calls in battery:
                         fs = FakeSock(enc(stream), plan)
                         bs = su.BufferedSocket(fs, timeout=None)
@@ -344,9 +353,9 @@ def exhaustive_sessions(maxlen):
                                 except Exception:
                                     rb = [-7]
                                 evs.append({"call": call, "r": r, "rbuf": rb, "pos": fs.pos})
-                                if r["e"] != "Timeout":
+                                if r["e"] not in INTERRUPTED:
                                     break
-                        out.append({"kind": "recv", "stream": list(stream), "recvsize": 0, "plan": [0 if p == "T" else p for p in plan], "ev": evs})
+                        out.append({"kind": "recv", "stream": list(stream), "recvsize": 0, "plan": [PLANCODE.get(p, p) for p in plan], "ev": evs})
     return out
 
 
